@@ -41,7 +41,13 @@ int main(void)
      * octets, which an encoder must write as 00 00 03 00 -- then (LONGCODE - 24) zero bits and the terminating 1; the
      * rest of that octet and the following octets (where further escapes may fall) are symbolic */
     raw[0] = 0; raw[1] = 0; raw[2] = 3; raw[3] = 0;
-    VASSUME((raw[4] >> (7 - (LONGCODE - 24))) == 1);
+#ifdef B4       /* the octet holding the end of the prefix is a discrete selector: symbolic low bits make the prefix
+                 * loops of the reader symbolic (measured: out of memory at 23 GB) */
+    raw[4] = B4;
+    VASSERT((raw[4] >> (7 - (LONGCODE - 24))) == 1, "harness: selector octet carries the end of the prefix");
+#else
+    raw[4] = (uint8_t)(1u << (7 - (LONGCODE - 24)));
+#endif
 #endif
     /* reference: remove emulation prevention octets */
     int zeros = 0;
